@@ -26,3 +26,20 @@ Definition py_lstrip (v:pyval) : res := match v with VStr s => Normal (VStr (map
 Definition py_rstrip (v:pyval) : res := match v with VStr s => Normal (VStr (map Z.of_N (rstrip (map Z.to_N s)))) | _ => Exc AttributeError end.
 Definition py_split_ws (v:pyval) : res :=
   match v with VStr s => Normal (VList (map (fun w => VStr (map Z.of_N w)) (split_ws (map Z.to_N s)))) | _ => Exc AttributeError end.
+
+(* pattern.sub(callback, line): the py_call parameter lists the matches as (start, end, match object), the translated callback computes one
+   replacement per match, py_stitch puts the text together (text between the matches copied) *)
+Fixpoint stitch_z (line : list Z) (i : nat) (ms reps : list pyval) : option (list Z) :=
+  match ms, reps with
+  | VTuple [VInt a; VInt b; _] :: ms', VStr rep :: reps' =>
+      match stitch_z line (Z.to_nat b) ms' reps' with
+      | Some t => Some (firstn (Z.to_nat a - i) (skipn i line) ++ rep ++ t)%list
+      | None => None end
+  | [], [] => Some (skipn i line)
+  | _, _ => None
+  end.
+Definition py_stitch (line ms reps : pyval) : res :=
+  match line, ms, reps with
+  | VStr l, VList m, VList r => match stitch_z l 0 m r with Some t => Normal (VStr t) | None => Exc TypeError end
+  | _, _, _ => Exc TypeError
+  end.
